@@ -22,6 +22,8 @@
 #define ALN_RUN_IMPORT
 #include "aln_run.h"
 
+#include "kalign_verif.h"
+
 static void recursive_aln(struct msa* msa, struct aln_tasks*t, struct aln_param* ap, uint8_t* active, int c);
 /* static void recursive_aln_openMP(struct msa* msa, struct aln_tasks*t, struct aln_param* ap, uint8_t* active, int c); */
 /* static void recursive_aln_serial(struct msa* msa, struct aln_tasks*t, struct aln_param* ap, uint8_t* active, int c); */
@@ -107,7 +109,9 @@ void recursive_aln(struct msa* msa, struct aln_tasks*t, struct aln_param* ap, ui
 
         ml->ap = ap;
         ml->mode = ALN_MODE_FULL;
+        KALIGN_VERIF_EVENT(KV_EV_MERGE_BEGIN, msa, t, c, 0, 0);
         do_align(msa,t,ml,c);
+        KALIGN_VERIF_EVENT(KV_EV_MERGE_END, msa, t, c, 0, 0);
 
         active[local_t->a] = 0;
         active[local_t->b] = 0;
@@ -269,6 +273,7 @@ int do_align(struct msa* msa,struct aln_tasks* t,struct aln_mem* m, int task_id)
                 msa->sip[c][g] = msa->sip[b][j];
                 g++;
         }
+        KALIGN_VERIF_EVENT(KV_EV_NODE_DONE, msa, m, a, b, c);
 
         return OK;
 ERROR:
